@@ -116,6 +116,12 @@ func cmdWorker(args []string) int {
 	perProc := sc.RunsPerProcess
 	if *rpp >= 0 {
 		perProc = uint64(*rpp)
+	} else if perProc == 0 && *w%2 == 1 {
+		// single-task scenarios: the workers with an odd stripe number hand over to a fresh process
+		// every 2500 runs, so that a batch contains many first-calls-of-a-process (memoised images,
+		// lazily built tables, "first frame of its kind" paths); the even ones live for the whole
+		// batch (state that builds up over many calls)
+		perProc = 2500
 	}
 	kn := loadKnown(*known, *prop)
 	if n, _ := strconv.Atoi(os.Getenv("SIMCHECK_NSITES")); n > 0 {
